@@ -550,6 +550,9 @@ func (m *Machine) intrinsic(s *State, f *Frame, x *ssa.Call, name string, callee
 		if r, ok := m.timeIntrinsic(s, f, x, name, args); ok {
 			return r, true
 		}
+	case short == "vSleep":
+		// "long enough for the other goroutines to park": a schedule point
+		return m.schedule(s, true), true
 	case short == "vYield":
 		s.yields = append(s.yields, strConst(args[0]))
 		return m.schedule(s, true), true
